@@ -125,6 +125,10 @@ def main():
         root = ET.fromstring(s)
         d = root.find("./default/" + tag)
         e = root.find(path)
+        if e is None and path.count("/") == 1:
+            # a top-level section (<option>) is not emitted at all when the writer has no attribute to put on it
+            print("ok D %s E -" % show(d, tables[table]))
+            continue
         if e is None:
             print("err instance element not found in the saved text")
             continue
